@@ -340,7 +340,7 @@ def _main(prop_id, args, seed, t0, scratch):
         # a found violation is reported even when some cases also hit a harness problem (e.g. a change to the
         # repository that breaks setup makes the class histogram degenerate)
         for h in m['harness_errors'][:3]:
-            print(f"note: harness problem alongside the violation: {h[:300]}")
+            print(f"note: harness problem alongside the violation: {h[:int(os.environ.get("VFW_HERR_LEN", "300"))]}")
         for sig, path in violations_out:
             print(f"  signature={sig}")
             print(f"VIOLATION property={prop_id} replay={path}")
